@@ -45,9 +45,18 @@ def gen_cases(tier, seed):
     cases = []
     for k in range(n):
         nterms = r.choice([1, 1, 2])
+        # F23 (open): the same long intermediate in two terms with different
+        # prefactors - kept in a separate small bucket
+        bucket = k >= n - 10
+        if bucket:
+            nterms = 2
         terms = []
         for _ in range(nterms):
             name = r.choice(pool)
+            if bucket and terms:
+                name = terms[0]['itmd']
+            elif terms:
+                name = r.choice([x for x in pool if x != terms[0]['itmd']])
             terms.append({'itmd': name, 'iseed': r.randrange(1 << 30),
                           'pref': r.choice(['1', '-1', '2', '1/2', '-1/3']),
                           # several terms: all indices linked (same targets)
@@ -215,6 +224,8 @@ def run_case(case, res):
         res.skip('terms with different targets')
         return
     E.set_target_idx(tg)
+    tags = ['same_intermediate_in_several_terms'] \
+        if len(set(names)) < len(names) else []
     res.fingerprint = fp(sorted(names), case['request'], case['perturb'],
                          case['once'], [round(t['nlink'], 1)
                                         for t in case['terms']])
@@ -265,13 +276,13 @@ def run_case(case, res):
             res.violation(
                 f'factor_intermediates({kw}) changed the value of the '
                 f'{case["perturb"]}-perturbed expansion of {E}: -> '
-                f'{str(F)[:400]}')
+                f'{str(F)[:400]}', tags)
             return
         # factoring followed by expansion is the identity in value
         B = lib_call(F.copy().expand_intermediates).expand()
         if not np.array_equal(vp, ev.value(B.sympy, tg)):
             res.violation(f'expand(factor(.)) is not the identity in value for '
-                          f'{E} (request {kw})')
+                          f'{E} (request {kw})', tags)
             return
     # reduce ------------------------------------------------------------------
     try:
